@@ -205,6 +205,63 @@ fn run_case(rng: &mut Rng, s: &mut Sink, len: u64) {
     s.emit("dump", "dump".into(), format!("ev={} [{}]{}", ev, body.join(","), sut.tail()));
 }
 
+/// free-running: several threads fill (and refresh, remove, read) the same few keys of one real `ClockCache` at
+/// once, as concurrent gets of one offloaded key do.  Judged at quiescence without the model: at most one entry
+/// per key, reported memory = total size of the held entries, and an explicit remove is not followed by a hit.
+fn fill_race(rng: &mut Rng, s: &mut Sink, idx: u64) {
+    let stats = Arc::new(Statistics::new());
+    let cache = Arc::new(ClockCache::new(stats.clone()));
+    let nkeys = rng.range(1, 6);
+    let keys: Arc<Vec<Vec<u8>>> = Arc::new((0..nkeys).map(|i| format!("fr{}-{}", idx, i).into_bytes()).collect());
+    let recs: Arc<Vec<Arc<Record>>> = Arc::new(keys.iter().map(|k| Arc::new(Record::new(k.clone(), vec![1], 7))).collect());
+    let tagged = rng.chance(1, 2);
+    let rounds = rng.range(200, 2000);
+    let nthreads = rng.range(2, 6);
+    let barrier = Arc::new(std::sync::Barrier::new(nthreads as usize));
+    let mut hs = vec![];
+    for t in 0..nthreads {
+        let (cache, keys, recs, barrier) = (cache.clone(), keys.clone(), recs.clone(), barrier.clone());
+        let mut r = Rng::new(rng.next() ^ t);
+        hs.push(std::thread::spawn(move || {
+            barrier.wait();
+            for _ in 0..rounds {
+                let i = r.below(keys.len() as u64) as usize;
+                let v = Bytes::from(vec![i as u8; 64 + 16 * i]);
+                match r.below(10) {
+                    0 => { if tagged { cache.verif_remove_for_record(&keys[i], &recs[i]); } else { cache.remove(&keys[i]); } }
+                    1 | 2 => { if tagged { let _ = cache.verif_get_for_record(&keys[i], &recs[i]); } else { let _ = cache.get(&keys[i]); } }
+                    _ => { if tagged { cache.verif_insert_for_record(keys[i].clone(), v, &recs[i]); } else { cache.insert(keys[i].clone(), v); } }
+                }
+            }
+        }));
+    }
+    for h in hs { let _ = h.join(); }
+    *s.hist.entry("fill-race".into()).or_insert(0) += 1;
+    let es = cache.verif_entries();
+    let mut seen = std::collections::HashMap::new();
+    for e in &es { *seen.entry(e.1.clone()).or_insert(0usize) += 1; }
+    if let Some((k, n)) = seen.iter().find(|(_, n)| **n > 1) {
+        s.oracle.push(format!("fillrace={} after {} threads filled {} keys concurrently ({}) the cache holds {} entries for key {}", idx, nthreads, nkeys, if tagged { "tagged with the key's generation" } else { "untagged" }, n, String::from_utf8_lossy(k)));
+    }
+    let total: usize = es.iter().map(|e| e.4).sum();
+    let mem = stats.cache_memory.load(Ordering::Relaxed);
+    if total != mem {
+        s.oracle.push(format!("fillrace={} after concurrent fills reported cache memory {} != total size of held entries {}", idx, mem, total));
+    }
+    for (i, k) in keys.iter().enumerate() {
+        if tagged { cache.verif_remove_for_record(k, &recs[i]); } else { cache.remove(k); }
+        let hit = if tagged { cache.verif_get_for_record(k, &recs[i]).is_some() } else { cache.get(k).is_some() };
+        if hit {
+            s.oracle.push(format!("fillrace={} hit on {} right after an explicit remove (single-threaded, after {} threads had filled the key concurrently)", idx, String::from_utf8_lossy(k), nthreads));
+            break;
+        }
+    }
+    let left = stats.cache_memory.load(Ordering::Relaxed);
+    if left != 0 && cache.verif_entries().is_empty() {
+        s.oracle.push(format!("fillrace={} every key removed, no entry held, but reported cache memory is {}", idx, left));
+    }
+}
+
 fn main() {
     let args = parse_args();
     std::fs::create_dir_all(&args.out).unwrap();
@@ -221,6 +278,10 @@ fn main() {
     for _ in 0..cases {
         let len = rng.range(10, 250);
         run_case(&mut rng, &mut s, len);
+    }
+    let races: u64 = args.extra.iter().find_map(|e| e.strip_prefix("fillraces=").map(|v| v.parse().unwrap())).unwrap_or(if args.thorough { 400 } else { 40 });
+    for i in 0..races {
+        fill_race(&mut rng, &mut s, i);
     }
     s.ops.flush().unwrap();
     s.imp.flush().unwrap();
